@@ -2108,25 +2108,37 @@ func (p *Posix) ListMultipartUploads(_ context.Context, mpu *s3.ListMultipartUpl
 		}, nil
 	}
 
+	// uploads are listed by key, the uploads of one key by upload id
 	sort.SliceStable(uploads, func(i, j int) bool {
-		return uploads[i].Key < uploads[j].Key
+		if uploads[i].Key != uploads[j].Key {
+			return uploads[i].Key < uploads[j].Key
+		}
+		return uploads[i].UploadID < uploads[j].UploadID
 	})
 
-	for i := keyMarkerInd + 1; i < len(uploads); i++ {
-		if maxUploads == 0 {
-			break
+	// continue after the markers
+	first := 0
+	if keyMarker != "" {
+		first = len(uploads)
+		for i, u := range uploads {
+			if u.Key > keyMarker ||
+				(u.Key == keyMarker && uploadIDMarker != "" && u.UploadID > uploadIDMarker) {
+				first = i
+				break
+			}
 		}
-		if keyMarker != "" && uploadIDMarker != "" && uploads[i].UploadID < uploadIDMarker {
-			continue
-		}
-		if i != len(uploads)-1 && len(resultUpds) == maxUploads {
+	}
+
+	for i := first; i < len(uploads) && maxUploads > 0; i++ {
+		if len(resultUpds) == maxUploads {
+			last := resultUpds[len(resultUpds)-1]
 			return s3response.ListMultipartUploadsResult{
 				Bucket:             bucket,
 				Delimiter:          delimiter,
 				KeyMarker:          keyMarker,
 				MaxUploads:         maxUploads,
-				NextKeyMarker:      resultUpds[i-1].Key,
-				NextUploadIDMarker: resultUpds[i-1].UploadID,
+				NextKeyMarker:      last.Key,
+				NextUploadIDMarker: last.UploadID,
 				IsTruncated:        true,
 				Prefix:             prefix,
 				UploadIDMarker:     uploadIDMarker,
